@@ -50,17 +50,26 @@ Nullish(v) == v.t \in {"n", "x"}
 (* Field: name response key, key JSON key in the subgraph data, on            *)
 (*  OnTypeNames, pon ParentOnTypeNames (<<[d |-> depth, names |-> ..]>>), v.   *)
 (* ------------------------------------------------------------------------ *)
-LeafKinds == {"String", "Int", "Float", "Boolean", "Enum", "Scalar"}
+LeafKinds == {"String", "Int", "Float", "Boolean", "Enum", "Scalar", "BigInt", "Custom"}
+\* nodes that render a constant whatever the data holds: StaticString (value in tn), EmptyObject, EmptyArray, Null
+ConstKinds == {"StaticString", "EmptyObject", "EmptyArray", "Null"}
 Node(k, n, fs, it, pt, tn, vals, inacc) ==
   [k |-> k, n |-> n, fs |-> fs, it |-> it, pt |-> pt, tn |-> tn, vals |-> vals, inacc |-> inacc]
 Leaf(k, n) == Node(k, n, <<>>, <<>>, <<>>, k, <<>>, <<>>)
 EnumNode(n, tn, vals, inacc) == Node("Enum", n, <<>>, <<>>, <<>>, tn, vals, inacc)
 ArrayNode(n, item) == Node("Array", n, <<>>, <<item>>, <<>>, "", <<>>, <<>>)
 ObjectNode(n, tn, pt, fs) == Node("Object", n, fs, <<>>, pt, tn, <<>>, <<>>)
-Fld(name, key, on, pon, v) == [name |-> name, key |-> key, on |-> on, pon |-> pon, v |-> v]
+\* deny = the post-fetch authorizer denies this field: its value is a null at that position + an error
+Fld(name, key, on, pon, v) == [name |-> name, key |-> key, on |-> on, pon |-> pon, deny |-> FALSE, v |-> v]
+FldD(name, v) == [name |-> name, key |-> name, on |-> <<>>, pon |-> <<>>, deny |-> TRUE, v |-> v]
 F(name, v) == Fld(name, name, <<>>, <<>>, v)
 
 IsLeaf(T) == T.k \in LeafKinds
+IsConst(T) == T.k \in ConstKinds
+ConstVal(T) == CASE T.k = "StaticString" -> JS(T.tn)
+                 [] T.k = "EmptyObject" -> JO(<<>>, <<>>)
+                 [] T.k = "EmptyArray" -> JL(<<>>)
+                 [] T.k = "Null" -> JNull
 \* resolve.Object.isAbstract
 IsAbstract(T) == Len(T.pt) > 1 \/ (Len(T.pt) = 1 /\ T.pt[1] # T.tn)
 
@@ -85,6 +94,12 @@ LeafOK(T, v) ==
     [] T.k = "Boolean" -> v.t = "b"
     [] T.k = "Enum" -> v.t = "s" /\ InSeq(v.v, T.vals) /\ ~InSeq(v.v, T.inacc)
     [] T.k = "Scalar" -> TRUE
+    [] T.k = "BigInt" -> TRUE                  \* resolve.BigInt: a custom scalar, any JSON value
+    [] T.k = "Custom" -> v.t = "s"             \* resolve.CustomNode with the harness' resolver: accepts strings only
+\* what a leaf renders for an acceptable subgraph value (the harness' custom resolver wraps the string: {"c": value})
+LeafOut(T, jv) == IF T.k = "Custom" THEN JO(<<"c">>, <<jv>>) ELSE jv
+\* does a rendered non-null value conform to the leaf type?
+LeafOutOK(T, ov) == IF T.k = "Custom" THEN ov.t = "o" /\ ov.k = <<"c">> /\ ov.v[1].t = "s" ELSE LeafOK(T, ov)
 
 (* ------------------------------------------------------------------------ *)
 (* Offending positions of (T, j): the frontier of positions, reached by       *)
@@ -110,7 +125,8 @@ Cls(al, T, what, p) == (IF al THEN "alias/" ELSE "") \o T.k \o ":" \o what \o Po
 
 RECURSIVE Offs(_, _, _, _, _, _)
 Offs(T, jv, p, na, tns, al) ==
-  IF Nullish(jv) THEN (IF T.n THEN <<>> ELSE <<Off(p, TRUE, na, Cls(al, T, "null", p))>>)
+  IF IsConst(T) THEN <<>>
+  ELSE IF Nullish(jv) THEN (IF T.n THEN <<>> ELSE <<Off(p, TRUE, na, Cls(al, T, "null", p))>>)
   ELSE
     LET me == IF T.n THEN Anc(p) ELSE na IN
     CASE IsLeaf(T) -> IF LeafOK(T, jv) THEN <<>> ELSE <<Off(p, FALSE, na, Cls(al, T, Found(T, jv), p))>>
@@ -126,9 +142,13 @@ Offs(T, jv, p, na, tns, al) ==
            ELSE LET tns2 == Append(tns, RT(jv))
                     sel == Sel(T, tns2)
                     n == Len(sel)
+                    pp(i) == Append(p, JS(sel[i].name))
+                    al2(i) == al \/ sel[i].key # sel[i].name
                     acc[i \in 0..n] == IF i = 0 THEN <<>>
-                                       ELSE acc[i - 1] \o Offs(sel[i].v, Get(jv, sel[i].key), Append(p, JS(sel[i].name)),
-                                                               me, tns2, al \/ sel[i].key # sel[i].name)
+                                       ELSE acc[i - 1] \o
+                                            (IF sel[i].deny
+                                             THEN <<Off(pp(i), TRUE, IF sel[i].v.n THEN Anc(pp(i)) ELSE me, Cls(al2(i), sel[i].v, "denied", pp(i)))>>
+                                             ELSE Offs(sel[i].v, Get(jv, sel[i].key), pp(i), me, tns2, al2(i)))
                 IN acc[n]
 
 WellTyped(T, j) == Offs(T, j, <<>>, NoAnc, <<>>, FALSE) = <<>>
@@ -142,10 +162,11 @@ Res(ok, v, e) == [ok |-> ok, v |-> v, e |-> e]
 
 RECURSIVE Cmp(_, _, _, _)
 Cmp(T, jv, p, tns) ==
-  IF Nullish(jv) THEN (IF T.n THEN Res(TRUE, JNull, <<>>) ELSE Res(FALSE, JNull, <<p>>))
+  IF IsConst(T) THEN Res(TRUE, ConstVal(T), <<>>)
+  ELSE IF Nullish(jv) THEN (IF T.n THEN Res(TRUE, JNull, <<>>) ELSE Res(FALSE, JNull, <<p>>))
   ELSE
     LET raw ==
-      CASE IsLeaf(T) -> IF LeafOK(T, jv) THEN Res(TRUE, jv, <<>>) ELSE Res(FALSE, JNull, <<p>>)
+      CASE IsLeaf(T) -> IF LeafOK(T, jv) THEN Res(TRUE, LeafOut(T, jv), <<>>) ELSE Res(FALSE, JNull, <<p>>)
         [] T.k = "Array" ->
              IF jv.t # "l" THEN Res(FALSE, JNull, <<p>>)
              ELSE LET n == Len(jv.v)
@@ -157,7 +178,10 @@ Cmp(T, jv, p, tns) ==
              ELSE LET tns2 == Append(tns, RT(jv))
                       sel == Sel(T, tns2)
                       n == Len(sel)
-                      rs == [i \in 1..n |-> Cmp(sel[i].v, Get(jv, sel[i].key), Append(p, JS(sel[i].name)), tns2)]
+                      rs == [i \in 1..n |->
+                               IF sel[i].deny
+                               THEN Res(sel[i].v.n, JNull, <<Append(p, JS(sel[i].name))>>)   \* denied: null + error, bubbles if non-null
+                               ELSE Cmp(sel[i].v, Get(jv, sel[i].key), Append(p, JS(sel[i].name)), tns2)]
                       es[i \in 0..n] == IF i = 0 THEN <<>> ELSE es[i - 1] \o rs[i].e
                   IN Res(\A i \in 1..n : rs[i].ok, JO([i \in 1..n |-> sel[i].name], [i \in 1..n |-> rs[i].v]), es[n])
     IN IF raw.ok THEN raw
@@ -206,17 +230,24 @@ Replaced(T, jv, p, na, tns, al, eps, tgt) ==
      ELSE IF \E i \in 1..Len(just) : just[i].p \in eps THEN {}
      ELSE {Fail("Reported", just[1].c)}
 
+\* a denied field that is present in the output: null (in a nullable position) and reported at its path
+Denied(T, ov, p, al, eps) ==
+  (IF ov.t # "n" THEN {Fail("TypeSafe", "denied-value-rendered")}
+   ELSE IF T.n THEN {} ELSE {Fail("TypeSafe", T.k \o ":null-in-non-null")})
+  \cup (IF p \in eps THEN {} ELSE {Fail("Reported", Cls(al, T, "denied", p))})
+
 RECURSIVE D(_, _, _, _, _, _, _, _)
 D(T, jv, ov, p, na, tns, al, eps) ==
-  IF ov.t = "n" THEN
+  IF IsConst(T) THEN (IF ov = ConstVal(T) THEN {} ELSE {Fail("Projection", "constant-node:" \o T.k)})
+  ELSE IF ov.t = "n" THEN
     (IF T.n THEN {} ELSE {Fail("TypeSafe", T.k \o ":null-in-non-null")})
     \cup (IF Nullish(jv) THEN {} ELSE Replaced(T, jv, p, na, tns, al, eps, Anc(p)))
   ELSE IF Nullish(jv) THEN {Fail("Projection", "value-for-null")}
   ELSE
     LET me == IF T.n THEN Anc(p) ELSE na IN
     CASE IsLeaf(T) ->
-           (IF LeafOK(T, ov) THEN {} ELSE {Fail("TypeSafe", T.k \o ":" \o ov.t)})
-           \cup (IF ov = jv THEN {} ELSE {Fail("Projection", "leaf-differs")})
+           (IF LeafOutOK(T, ov) THEN {} ELSE {Fail("TypeSafe", T.k \o ":" \o ov.t)})
+           \cup (IF ov = LeafOut(T, jv) THEN {} ELSE {Fail("Projection", "leaf-differs")})
       [] T.k = "Array" ->
            IF ov.t # "l" THEN {Fail("TypeSafe", "Array:" \o ov.t)}
            ELSE IF jv.t # "l" THEN {Fail("TypeSafe", "Array:rendered-for-" \o jv.t)}
@@ -230,10 +261,11 @@ D(T, jv, ov, p, na, tns, al, eps) ==
                     names == [i \in 1..Len(sel) |-> sel[i].name]
                 IN (IF NoDup(ov.k) /\ Range(ov.k) = Range(names) THEN {}
                     ELSE {Fail("Keys", IF ~NoDup(ov.k) THEN "duplicate" ELSE IF Range(names) \subseteq Range(ov.k) THEN "extra" ELSE "missing")})
-                   \cup UNION {IF Has(ov, sel[i].name)
-                               THEN D(sel[i].v, Get(jv, sel[i].key), Get(ov, sel[i].name), Append(p, JS(sel[i].name)),
-                                      me, tns2, al \/ sel[i].key # sel[i].name, eps)
-                               ELSE {} : i \in 1..Len(sel)}
+                   \cup UNION {IF ~Has(ov, sel[i].name) THEN {}
+                               ELSE IF sel[i].deny
+                               THEN Denied(sel[i].v, Get(ov, sel[i].name), Append(p, JS(sel[i].name)), al \/ sel[i].key # sel[i].name, eps)
+                               ELSE D(sel[i].v, Get(jv, sel[i].key), Get(ov, sel[i].name), Append(p, JS(sel[i].name)),
+                                      me, tns2, al \/ sel[i].key # sel[i].name, eps) : i \in 1..Len(sel)}
 
 PathOK(pv) == pv.t = "l" /\ \A i \in 1..Len(pv.v) : pv.v[i].t \in {"s", "i"}
 ErrorOK(e) == /\ e.t = "o" /\ NoDup(e.k)
@@ -271,8 +303,9 @@ Conj(T, j, out, c) == \A f \in Verdict(T, j, out) : f.c # c
 \* renders whatever the subgraph sent, no checks, no errors
 RECURSIVE Raw(_, _, _)
 Raw(T, jv, tns) ==
-  IF Nullish(jv) THEN JNull
-  ELSE CASE IsLeaf(T) -> jv
+  IF IsConst(T) THEN ConstVal(T)
+  ELSE IF Nullish(jv) THEN JNull
+  ELSE CASE IsLeaf(T) -> LeafOut(T, jv)
          [] T.k = "Array" -> IF jv.t # "l" THEN jv ELSE JL([i \in 1..Len(jv.v) |-> Raw(T.it[1], jv.v[i], tns)])
          [] T.k = "Object" -> IF ~ValidObj(T, jv) THEN jv
                               ELSE LET tns2 == Append(tns, RT(jv))
